@@ -1416,11 +1416,19 @@ def evaluate__parse_xml(self: XPathFunction, context: ta.ContextType = None) \
         raise self.missing_context()
 
     etree = context.etree
+    if etree.__name__ == 'xml.etree.ElementTree':
+        # The default parser of ElementTree discards comments and processing instructions
+        xml_parser = etree.XMLParser(
+            target=etree.TreeBuilder(insert_comments=True, insert_pis=True)
+        )
+    else:
+        xml_parser = None
+
     try:
         if self.parser.defuse_xml:
-            root = etree.XML(defuse_xml(arg.encode('utf-8')))
+            root = etree.XML(defuse_xml(arg.encode('utf-8')), xml_parser)
         else:
-            root = etree.XML(arg.encode('utf-8'))
+            root = etree.XML(arg.encode('utf-8'), xml_parser)
     except etree.ParseError:
         raise self.error('FODC0006')
     else:
